@@ -1,8 +1,8 @@
-SPECIFICATION Spec
+SPECIFICATION GSpec
 CONSTANTS
   Gor = {"g1", "g2", "g3"}
   Eps = {"E", "F"}
-  Svcs = {"xe", "e", "ef", "f", "t"}
+  Svcs = {"xe", "e", "t"}
   Adv <- AdvAll
   MaxReq = 1
   MaxLoss = 0
@@ -13,5 +13,7 @@ CONSTANTS
   Dev_DeadClientStaysInPool = FALSE
   Dev_PoolKeyedByAdvertised = FALSE
   Dev_CloserBeforeInsert = FALSE
-INVARIANTS TypeOK ProcessAlive NoBadUnlock MutexOK RequestOutcome ReturnedIsOpen AtMostOneConnPerEndpoint ExtraConnectionsClosed PoolHoldsLiveClients AllGetTheSharedClient NoDeadlock
+VIEW View
+CONSTRAINT Replayable
+INVARIANTS ProcessAlive NoBadUnlock MutexOK RequestOutcome ReturnedIsOpen AtMostOneConnPerEndpoint ExtraConnectionsClosed PoolHoldsLiveClients AllGetTheSharedClient
 CHECK_DEADLOCK FALSE
